@@ -11,16 +11,27 @@ RULE = ("random op sequences over {caller object creation, set single/list x lis
         "identity (`is`) isolation is probed, and the abstract symmetric-map spec (an independent pure replay) is compared with the implementation; "
         "ValueTable: set/setUnset/check/iteration vs model and vs a dict replay. Non-trivial = >= 3 ops incl. >= 1 mutation after a multi-pair set; "
         "distinct = distinct (n, op list)")
-EXTRA_TRUSTED = ["Model/Tables.lean: deepcopy = fresh cell, in-place change = write through the reference; stored objects are lists of ints",
+EXTRA_TRUSTED = ["Model/Tables.lean: deepcopy = fresh cell, in-place change = write through the reference; stored objects are lists of ints, in half of the cases wrapped in an object with nested mutable state (only a deep copy isolates those)",
                  "apply() is exercised with pure functions only (the property's 'leaves the original untouched' presupposes that)"]
 ASSUMPTIONS = ["symmetric=True tables (the default and the only kind the library creates)"]
 NAMES = ['poly', 'B', 'solvent', 'D4']
 
+class Box(object):
+    """a value with NESTED mutable state (like a potential object holding an array): only a deep copy isolates it"""
+    def __init__(self, items): self.items = list(items); self.meta = {'hist': [list(items)]}
+    def __eq__(self, other): return isinstance(other, Box) and self.items == other.items
+    def __ne__(self, other): return not self.__eq__(other)
+    def __len__(self): return len(self.items)
+    def __iter__(self): return iter(self.items)
+    def __getitem__(self, k): return self.items[k]
+
 def vshow(v):
     if v is None: return 'N'
+    if isinstance(v, Box): v = v.items
     return 'e' if len(v) == 0 else ','.join(str(int(e)) for e in v)
 
 def mut_inplace(obj, kind, x):
+    if isinstance(obj, Box): obj = obj.items
     if kind == 'push': obj.append(x)
     elif kind == 'set0':
         if len(obj): obj[0] = x
@@ -30,9 +41,11 @@ def mut_inplace(obj, kind, x):
 def pure(kind, x):
     def f(v):
         if v is None: return None
-        if kind == 'push': return list(v) + [x]
-        if kind == 'set0': return ([x] + list(v[1:])) if len(v) else []
-        return [e + x for e in v]
+        wrap = Box if isinstance(v, Box) else (lambda t: t)
+        v = list(v)
+        if kind == 'push': return wrap(list(v) + [x])
+        if kind == 'set0': return wrap(([x] + list(v[1:])) if len(v) else [])
+        return wrap([e + x for e in v])
     return f
 
 def keyfor(idx, types, style):
@@ -94,7 +107,7 @@ def suite_pt(ctx, case):
     for step, op in enumerate(case['ops']):
         k = op['op']; sub = {'n': n, 'ops': case['ops'][:step + 1]}
         if k == 'obj':
-            objs.append(list(op['v'])); drv.ask('pt.obj ' + ' '.join(map(str, op['v'])))
+            objs.append(Box(op['v']) if case.get('nested') else list(op['v'])); drv.ask('pt.obj ' + ' '.join(map(str, op['v'])))
         elif k == 'mutobj':
             mut_inplace(objs[op['k']], op['kind'], op['x']); drv.ask('pt.mutobj %d %s %d' % (op['k'], op['kind'], op['x']))
         elif k == 'set':
@@ -197,15 +210,15 @@ def gen_pt(rng, max_ops):
             ops.append({'op': 'mutate', 'T': rng.randrange(ntab), 'i': rng.randrange(n), 'j': rng.randrange(n), 'kind': kind, 'x': x})
         else:
             ops.append({'op': 'mutobj', 'k': rng.randrange(nobj), 'kind': kind, 'x': x})
-    return {'n': n, 'ops': ops}
+    return {'n': n, 'ops': ops, 'nested': rng.random() < 0.5}
 
 def gen_vt(rng, max_ops):
     n = rng.choice([1, 2, 3, 4]); ops = []
     for _ in range(rng.randint(1, max_ops)):
-        if rng.random() < 0.25: ops.append({'op': 'unset', 'v': rng.randrange(1000)})
+        if rng.random() < 0.25: ops.append({'op': 'unset', 'v': rng.choice([0, rng.randrange(1000)])})
         else:
             style = rng.choice(['single', 'list', 'tuple', 'array'])
-            ops.append({'op': 'set', 'ts': idx_list(rng, n, style), 'style': style, 'v': rng.randrange(1000)})
+            ops.append({'op': 'set', 'ts': idx_list(rng, n, style), 'style': style, 'v': rng.choice([0, 0, rng.randrange(1000), rng.randrange(1000)])})
     return {'n': n, 'ops': ops}
 
 def generate(ctx):
